@@ -4,7 +4,12 @@ import "golang.org/x/tools/go/ssa"
 
 func setupScope(c *Ctx) (*Roots, map[*ssa.Function]*ssa.Function, []*ssa.Function) {
 	ro := FindRoots(c.P, c.R)
-	pred, fns := ReachFirstParty(c.P, ro.AllSetups())
+	roots := ro.AllSetups()
+	// the loader that runs the setups on an accepted configuration, and whatever wraps them
+	if lp := c.P.Func("plugins", "", "LoadPlugins"); lp != nil {
+		roots = append(roots, lp)
+	}
+	pred, fns := ReachFirstParty(c.P, roots)
 	return ro, pred, fns
 }
 
@@ -34,7 +39,7 @@ func init() {
 			ruleChainLoad(c, "C19.SETUP.ABORT")
 			// the handlers a setup returns must be safe for every request: same rules as C01 on the handler scope
 			_, hpred, hfns := handlerScope(c)
-			runSafety(c, "C19.HANDLER.", hfns, hpred, "NILPATH", "NILSRC", "BOUNDS", "MAPWRITE", "FUNCNIL")
+			runSafety(c, "C19.HANDLER.", hfns, hpred, "NILPATH", "NILSRC", "BOUNDS", "MAPWRITE", "FUNCNIL", "ARITH")
 			c.R.Floor("C19.SETUP.BOUNDS", 25)
 			c.R.Floor("C19.SETUP.FAMILY", 8)
 			c.R.Floor("C19.SETUP.HANDLER-OR-ERROR", 23)
